@@ -400,6 +400,7 @@ public:
   {
     vers.clear();
     vers.push_back(Version{th0, bps0});
+    g_overruns = 0;
     Arr b;
     for (size_t x : bps0) b.add(x);
     tracer().emit(Obj().kv("e", "Reset").kv("k", c.cls).kv("tm", c.tm).kv("n", c.n).kv("len", c.len).kv("chunk", c.chunk).kv("bps", b));
@@ -435,6 +436,22 @@ public:
     });
     vers.push_back(v);
     tracer().emit(Obj().kv("e", "Update").kv("ver", ver()).kv("r", r).kv("style", style).kv("np", changes.size()).kv("mem", g_overruns.load() == 0));
+    ++events;
+  }
+  // FullHmmTransitionMatrix::setTransitionProbabilities: afterwards the model's *parameters* are the
+  // configuration (read back from the object), and every answer must be the one of a fresh object at them
+  void setMatrix(const Tab& m)
+  {
+    bpp::FullHmmTransitionMatrix* f = dynamic_cast<bpp::FullHmmTransitionMatrix*>(tmObj.get());
+    bpp::RowMatrix<double> mat(m.size(), m.size());
+    for (size_t i = 0; i < m.size(); ++i)
+      for (size_t j = 0; j < m.size(); ++j) mat(i, j) = m[i][j];
+    std::string r = outcome<bpp::Exception>([&]() { f->setTransitionProbabilities(mat); });
+    Version v = vers.back();
+    const ParameterList& pl = f->getParameters();
+    for (size_t i = 0; i < pl.size(); ++i) thetaSet(v.th, pl[i].getName(), pl[i].getValue());
+    vers.push_back(v);
+    tracer().emit(Obj().kv("e", "Update").kv("ver", ver()).kv("r", r).kv("style", 4).kv("np", pl.size()).kv("mem", g_overruns.load() == 0));
     ++events;
   }
   void setBps(const std::vector<size_t>& bps)
@@ -587,6 +604,7 @@ static void randCoefs(Rng& g, Conf& c, bool tiny)
 // the action alphabet of the likelihood classes / of the transition models
 static std::vector<std::string> alphabet(const Conf& c)
 {
+  if (c.cls == "full") return {"U", "S", "TPij", "TMat", "TEq"};
   if (isTmKind(c.cls)) return {"U", "TPij", "TMat", "TEq"};
   return {"U", "B", "LogLik", "Post", "PostS", "Site", "SiteS", "D1a", "D1b", "D2a", "D2b", "D1z"};
 }
@@ -602,6 +620,22 @@ static void act(CacheRun& run, Rng& g, const std::string& a, const std::vector<T
       cyc = (cyc + 1) % cycle.size();
       run.update(cycle[cyc], static_cast<int>(cyc % 4));
     }
+    return;
+  }
+  if (a == "S")
+  {
+    Tab m(run.c.n, std::vector<double>(run.c.n));
+    for (auto& row : m)
+    {
+      double s = 0;
+      for (double& x : row)
+      {
+        x = 0.05 + g.unit();
+        s += x;
+      }
+      for (double& x : row) x /= s;
+    }
+    run.setMatrix(m);
     return;
   }
   if (a == "B")
@@ -1027,6 +1061,7 @@ static long modeExact(Rng& g, long reps, long& scenarios, long& skipped)
               rs.kv("tables", tabs);
               tracer().emit(rs);
               ++scenarios;
+              g_overruns = 0;
               // break points are set after construction; half of the time only after a first round of queries
               bool late = g.coin() && !bps.empty();
               Built o = build(c, th, late ? std::vector<size_t>() : bps);
